@@ -311,6 +311,10 @@ func (g *ggen) strCall(d int) *ex {
 		if g.r.Bool() {
 			return c06Call("substring", g.strArg(d), g.intLit(-7, 8))
 		}
+		if g.r.Intn(3) == 0 {
+			// a negative start beyond the beginning of the string: clamped to 0, the length still counts from there
+			return c06Call("substring", g.strArg(d), g.intLit(-12, -2), g.intLit(1, 7))
+		}
 		return c06Call("substring", g.strArg(d), g.posArg(), g.intLit(-1, 6))
 	case 7, 8:
 		return c06Call("replace", g.strArg(d), str(gLitStr[g.r.Intn(len(gLitStr))]), str(gLitStr[g.r.Intn(len(gLitStr))]))
